@@ -64,6 +64,10 @@ def run(ctx):
     if not r.ok:
         ctx.machinery(f"TLC MCChanFile: {r.violated} {r.error[:600]}")
     ctx.note(f"TLC MCChanFile: {r.generated} scenarios-states, algorithm == reference file, {r.wall:.1f}s")
+    lossy = tlc.run("MCChanFile", "MCChanFileLossy.cfg", scratch=ctx.scratch, timeout=600, parse_trace=False)
+    if lossy.violated != "LossyAlgorithmIsAFile":
+        ctx.machinery(f"TLC: the read() design that forgets the items of a call that meets the end of the channel is not rejected ({lossy.violated})")
+    ctx.note("TLC MCChanFile: the local-accumulation design of read() (items of the call that meets EOF are forgotten) is refuted")
     cases, metas = [], []
     OPS = [("read", n) for n in range(0, 4)] + [("readline",)]
     # exhaustive replay of the model's bounded scenario space on the real ChannelFileRead (text and bytes)
